@@ -195,17 +195,17 @@ type Journal struct {
 
 // Span is the exact location of one model element in the rendered text.
 type Span struct {
-	Kind  string // date date2 status code payee note description account commodity number amount operator comment tagname tagvalue directive includepath entry posting
-	Text  string // the covered text
-	Name  string // semantic name (account name, symbol without quotes, tag name ...)
-	Entry int    // index of the entry
-	Post  int    // index of the posting (-1 if none)
-	Role  string // amount | cost | assertion | price | format | header | posting | line | directive
-	Line  int    // 0-based line
-	B0, B1   int // byte columns in the line
-	R0, R1   int // rune columns
-	U0, U1   int // UTF-16 columns
-	EndLine  int // for multi-line spans (entry): last line (inclusive)
+	Kind    string // date date2 status code payee note description account commodity number amount operator comment tagname tagvalue directive includepath entry posting
+	Text    string // the covered text
+	Name    string // semantic name (account name, symbol without quotes, tag name ...)
+	Entry   int    // index of the entry
+	Post    int    // index of the posting (-1 if none)
+	Role    string // amount | cost | assertion | price | format | header | posting | line | directive
+	Line    int    // 0-based line
+	B0, B1  int    // byte columns in the line
+	R0, R1  int    // rune columns
+	U0, U1  int    // UTF-16 columns
+	EndLine int    // for multi-line spans (entry): last line (inclusive)
 }
 
 type Rendered struct {
